@@ -16,7 +16,8 @@ use std::sync::atomic::{AtomicUsize, Ordering::Relaxed};
 static CUR: AtomicUsize = AtomicUsize::new(0);
 static PEAK: AtomicUsize = AtomicUsize::new(0);
 static MAXREQ: AtomicUsize = AtomicUsize::new(0);
-const REFUSE: usize = 1 << 28;
+// single requests above this are refused (panic "huge alloc"); lifted only while the big-body operation runs
+static REFUSE_AT: AtomicUsize = AtomicUsize::new(1 << 28);
 
 struct Counting;
 impl Counting {
@@ -32,7 +33,7 @@ impl Counting {
 }
 unsafe impl GlobalAlloc for Counting {
     unsafe fn alloc(&self, l: Layout) -> *mut u8 {
-        if l.size() > REFUSE {
+        if l.size() > REFUSE_AT.load(Relaxed) {
             MAXREQ.store(l.size(), Relaxed);
             panic!("huge alloc {}", l.size());
         }
@@ -44,7 +45,7 @@ unsafe impl GlobalAlloc for Counting {
         System.dealloc(p, l)
     }
     unsafe fn realloc(&self, p: *mut u8, l: Layout, n: usize) -> *mut u8 {
-        if n > REFUSE {
+        if n > REFUSE_AT.load(Relaxed) {
             MAXREQ.store(n, Relaxed);
             panic!("huge alloc {}", n);
         }
@@ -456,6 +457,57 @@ fn exec(t: &[&str]) -> String {
                         };
                         format!("{} || TXT {} || DEC {}", first, txt, dec)
                     },
+                }
+            },
+            _ => "bad-op".into(),
+        },
+        // a chunked response whose decoded body has `total` bytes, produced here piece by piece (chunks of `piece` bytes, one
+        // call per chunk) instead of being carried by the op line: bodies beyond 4 GiB (counters kept in 32 bits)
+        ["RESPBIG", total, piece] => match (total.parse::<usize>().ok(), piece.parse::<usize>().ok()) {
+            (Some(total), Some(piece)) if piece > 0 => {
+                REFUSE_AT.store(usize::MAX, Relaxed);
+                let out = std::panic::catch_unwind(|| {
+                    let mut r = Response::new();
+                    let mut buf: Vec<u8> = b"HTTP/1.1 200 OK\r\nServer: big\r\nTransfer-Encoding: chunked\r\n\r\n".to_vec();
+                    let mut sent = 0usize;
+                    let mut done = false;
+                    let mut verdict = String::from("I");
+                    loop {
+                        match r.parse(&buf) {
+                            Err(e) => {
+                                verdict = format!("E:{}", cat(&e));
+                                break;
+                            },
+                            Ok(res) => {
+                                buf.drain(..res.consumed);
+                                if res.status == ResponseParseStatus::Complete {
+                                    verdict = String::from("C");
+                                    break;
+                                }
+                            },
+                        }
+                        if done {
+                            break;
+                        }
+                        if sent < total {
+                            let n = piece.min(total - sent);
+                            buf.extend_from_slice(format!("{:x}\r\n", n).as_bytes());
+                            buf.resize(buf.len() + n, b'x');
+                            buf.extend_from_slice(b"\r\n");
+                            sent += n;
+                        } else {
+                            buf.extend_from_slice(b"0\r\n\r\n");
+                            done = true;
+                        }
+                    }
+                    let cl = r.headers.header_value("Content-Length").unwrap_or_else(|| "-".into());
+                    let te = r.headers.has_header("Transfer-Encoding");
+                    format!("BIG {} cl={} blen={} te={} left={}", verdict, cl, r.body.len(), te, buf.len())
+                });
+                REFUSE_AT.store(1 << 28, Relaxed);
+                match out {
+                    Ok(s) => s,
+                    Err(_) => format!("P:{}", pk(&last_panic())),
                 }
             },
             _ => "bad-op".into(),
